@@ -39,6 +39,16 @@ func zzSigCatalogue(shape int) []Input {
 		return []Input{zzIn("uint256[3][]", false), zzIn("tuple", false, zzIn("tuple[]", false, zzIn("address", false)))}
 	case 6:
 		return []Input{zzIn("tuple", false)}
+	case 7, 8:
+		// signatures longer than 128 / 256 bytes that differ only in their last input
+		var ins []Input
+		for i := 0; i < 40; i++ {
+			ins = append(ins, zzIn("uint256", false))
+		}
+		if shape == 8 {
+			ins[39] = zzIn("uint128", false)
+		}
+		return ins
 	}
 	return nil
 }
